@@ -5,6 +5,7 @@
 -/
 import TinyHttpModel.Proto
 import TinyHttpModel.ConnSpec
+import TinyHttpModel.Req
 
 namespace TH.ConnCase
 open TH.Proto
@@ -82,7 +83,9 @@ def run (kv : KV) : String :=
   let fin := if mode == "open" then EndState.open else if mode == "reset" then EndState.reset else EndState.eof
   -- after a full close or a reset the server's writes fail: what reaches the client is not compared
   let wireObservable := mode == "halfclose" || mode == "open"
-  let t := Conn.run bytes fin script
+  let big := get kv "bigcase" == "1"
+  let t := if big then ({ delivered := [], out := [], flushed := 0, ending := .closed, unmodelled := true, statuses := [] } : Trace)
+           else Conn.run bytes fin script
   -- implementation's observations
   let obs := (listS '|' (get kv "delivered")).map obsOf
   let wire := unhex (get kv "wire")
@@ -92,13 +95,36 @@ def run (kv : KV) : String :=
   let mobs := t.delivered.map (obsOfModel unix)
   -- agreement per observable
   let strip (o : Spec.Obs) : Spec.Obs := { o with bodyRead := [], readEnd := "", addr := "" }
-  let aHeads := mobs.map strip == obs.map strip
-  let aBodies := mobs.map (fun o => (o.bodyRead, o.readEnd)) == obs.map (fun o => (o.bodyRead, o.readEnd))
-  let aSeq := mobs.map (·.url) == obs.map (·.url)
+  let aHeads := big || mobs.map strip == obs.map strip
+  let aBodies := big || mobs.map (fun o => (o.bodyRead, o.readEnd)) == obs.map (fun o => (o.bodyRead, o.readEnd))
+  let aSeq := big || mobs.map (·.url) == obs.map (·.url)
+  let werrAfter : Option Nat := if has kv "werr" then
+      (match splitS ':' (get kv "werr") with
+       | [_, n] => toNat? n
+       | _ => none) else none
   let aWire := t.unmodelled || !wireObservable ||
+    (match werrAfter with
+     | some n => isPrefix wire t.out && decide (wire.length ≤ n) && decide (min n t.out.length ≤ wire.length + 48)
+     | none => false) ||
     (if t.ending == .closed then wire == t.out
      else isPrefix (t.out.take t.flushed) wire && isPrefix wire t.out)
-  let aEof := !wireObservable || eof == (t.ending == .closed)
+  let aEof := big || !wireObservable || eof == (t.ending == .closed)
+  -- read-ahead: how many requests become available while none is answered
+  -- (with `streamed_first=1` the application reads the first, streamed body to its end on arrival)
+  let aheadCount : Nat :=
+    if get kv "streamed_first" == "1" then
+      match readHead bytes fin with
+      | .ok (h, rest) =>
+        (match framingOf h.headers with
+         | .ok fr =>
+           let (body, rest1) := initialBody fr.kind rest
+           (match Body.drain (rest1.length + 2) body rest1 fin with
+            | some rest2 => 1 + (Req.aheadLoop (rest2.length + 1) rest2 fin).1.length
+            | none => 1)
+         | .error _ => 0)
+      | .error _ => 0
+    else (Req.aheadLoop (bytes.length + 1) bytes fin).1.length
+  let aAhead := !has kv "i_expect_received" || toString aheadCount == get kv "received"
   -- oracle on the implementation
   let hasIntent := has kv "i_reqs"
   let reqs := (listS '|' (get kv "i_reqs")).map ireqOf
@@ -109,12 +135,13 @@ def run (kv : KV) : String :=
   let aheadOk := !has kv "i_expect_received" || get kv "received" == get kv "i_expect_received"
   let extra := ",same:" ++ b01 (flag "same") ++ ",prefix:" ++ b01 (flag "prefix") ++ ",fresh:" ++ b01 (!has kv "fresh" || get kv "fresh" != "0")
     ++ ",nopanic:" ++ b01 (!has kv "panicked" || get kv "panicked" == "0") ++ ",ahead:" ++ b01 aheadOk
-    ++ ",noabort:" ++ b01 (!has kv "aborted" || get kv "aborted" == "0")
+    ++ ",noabort:" ++ b01 ((!has kv "aborted" || get kv "aborted" == "0") && (!has kv "abort" || get kv "abort" == "0"))
+    ++ ",alloc:" ++ b01 (!has kv "maxalloc" || decide (toNatD (get kv "maxalloc") ≤ 262144 + 16 * toNatD (get kv "sent") + 8 * wire.length))
   let sub := "heads:" ++ b01 v.heads ++ ",bodies:" ++ b01 v.bodies ++ ",seq:" ++ b01 v.seq ++ ",wire:" ++ b01 v.wire
     ++ ",eof:" ++ b01 v.eof ++ ",addr:" ++ b01 v.addr ++ ",nohang:" ++ b01 (!hang) ++ ",results:" ++ b01 okResults
     ++ ",dates:" ++ b01 (get kv "dates" == "ok") ++ extra
   let agr := "heads:" ++ b01 aHeads ++ ",bodies:" ++ b01 aBodies ++ ",seq:" ++ b01 aSeq ++ ",wire:" ++ b01 aWire
-    ++ ",eof:" ++ b01 aEof
+    ++ ",eof:" ++ b01 aEof ++ ",ahead:" ++ b01 aAhead
   let classes := (reqs.map (·.cls)).eraseDups
   let kinds := t.delivered.map (fun d => match (framingOf d.headers) with
     | .ok fr => (match fr.kind with
@@ -132,12 +159,18 @@ def run (kv : KV) : String :=
     (classes.map ("class:" ++ ·)) ++ (kinds.eraseDups.map ("body:" ++ ·)) ++ (fins.eraseDups.map ("fin:" ++ ·))
       ++ (consumed.eraseDups.map ("consumed:" ++ ·))
       ++ (if has kv "i_fam" then ["fam:" ++ get kv "i_fam"] else [])
+      ++ (if has kv "i_tag" then ["tag:" ++ String.ofList ((get kv "i_tag").toList.filter (fun c => !c.isDigit))] else [])
+      ++ (if has kv "werr" then ["werr:1"] else [])
+      ++ (if t.delivered.any (fun d => (d.readEnd == .err || d.readEnd == .pending) &&
+              (match framingOf d.headers with | .ok fr => fr.kind == .chunked | .error _ => false))
+          then ["lossy:1"] else [])
+      ++ (if has kv "streamed_first" then ["streamed_first:" ++ get kv "streamed_first"] else [])
       ++ (if has kv "cutk" then ["cut:" ++ (if t.delivered.isEmpty then "nothing" else "some")] else [])
       ++ ["mode:" ++ get kv "mode", "end:" ++ (if t.ending == .closed then "closed" else "waiting"),
           "n:" ++ toString (min t.delivered.length 5), "unix:" ++ b01 unix,
           "hold:" ++ b01 (get kv "hold" != "none"), "segs:" ++ b01 (get kv "segs" != "none")]
       ++ (t.statuses.eraseDups.map (fun s => "st:" ++ toString s))
-  let allAgree := aHeads && aBodies && aSeq && aWire && aEof
+  let allAgree := aHeads && aBodies && aSeq && aWire && aEof && aAhead
   let diff :=
     if allAgree then "-"
     else if !aSeq || !aHeads then "delivered model=" ++ "|".intercalate (mobs.map (fun o => hex o.method ++ "," ++ hex o.url ++ "," ++ toString o.version.major ++ "." ++ toString o.version.minor ++ "," ++ showOptNat o.bodyLength))
